@@ -204,6 +204,13 @@ func (a *Agent) handleICMPOpenAck(peerID identity.AgentID, frame *protocol.Frame
 	a.icmpIngressMu.RUnlock()
 
 	if ingress != nil {
+		// Only the first answer to an open counts (see handleUDPOpenAck).
+		select {
+		case <-ingress.PendingOpen:
+			return
+		default:
+		}
+
 		ack, err := protocol.DecodeICMPOpenAck(frame.Payload)
 		if err != nil {
 			ingress.closePendingOpen(err)
